@@ -134,8 +134,8 @@ static void init_headers(void)
 }
 
 /* ------------------------------------------------------------------ tokens */
-enum { SK_EMPTY, SK_GARBAGE, SK_VALID, SK_HMAC_EMPTYKEY, SK_HMAC_PUBPEM, NSK };
-static const char *sk_name[NSK] = { "empty", "garbage", "valid-for-header-alg", "hmac-empty-key", "hmac-pubkey-pem" };
+enum { SK_EMPTY, SK_GARBAGE, SK_VALID, SK_HMAC_EMPTYKEY, SK_HMAC_PUBPEM, SK_NATURAL, NSK };
+static const char *sk_name[NSK] = { "empty", "garbage", "valid-for-header-alg", "hmac-empty-key", "hmac-pubkey-pem", "valid-for-the-keys-own-alg-under-this-header" };
 static const char PAYLOAD[] = "{\"sub\":\"x\"}";
 
 /* token for (key, header, sigkind) or NULL when that signature cannot be computed */
@@ -184,6 +184,34 @@ static char *make_token(const pk_t *p, const hd_t *h, int sk)
 		l = rc_hmac(ha, "", 0, input, strlen(input), mac);
 		out = tok_attach(input, mac, l);
 		break;
+	case SK_NATURAL: {
+		/* a signature that is perfectly valid for the key's own family, over an input whose header names another algorithm */
+		if (!p)
+			break;
+		jwt_alg_t nat = JWT_ALG_NONE;
+		if (!p->vk)
+			nat = p->octlen >= 64 ? JWT_ALG_HS512 : p->octlen >= 32 ? JWT_ALG_HS256 : JWT_ALG_NONE;
+		else if (!strcmp(p->vk->kty, "RSA"))
+			nat = JWT_ALG_RS256;
+		else if (!strcmp(p->vk->kty, "EC"))
+			nat = !strcmp(p->vk->crv, "secp256k1") ? JWT_ALG_ES256K : p->vk->bits == 384 ? JWT_ALG_ES384 : p->vk->bits == 521 ? JWT_ALG_ES512 : JWT_ALG_ES256;
+		else
+			nat = JWT_ALG_EDDSA;
+		if (nat == JWT_ALG_NONE || nat == ha)
+			break;
+		if (!p->vk) {
+			l = rc_hmac(nat, p->oct, p->octlen, input, strlen(input), mac);
+			out = tok_attach(input, mac, l);
+		} else {
+			unsigned char *sig;
+			size_t sl;
+			if (rc_sign(p->vk, nat, input, strlen(input), &sig, &sl))
+				break;
+			out = tok_attach(input, sig, sl);
+			free(sig);
+		}
+		break;
+	}
 	case SK_HMAC_PUBPEM:
 		if (hf != RC_FAM_HS || !p || !p->vk)
 			break;
@@ -231,8 +259,8 @@ static jwk_set_t *load_pk(const pk_t *p, int priv, const char *attr)
 }
 
 /* ------------------------------------------------------------------ routes */
-enum { RT_SETKEY, RT_CB_KEY_ALG, RT_CB_KEY, RT_CB_ALG, RT_SETKEY_NOOPCB, NRT };
-static const char *rt_name[NRT] = { "setkey", "cb-sets-key+alg", "cb-sets-key-only", "setkey(none,K)+cb-sets-alg", "setkey+noop-cb" };
+enum { RT_SETKEY, RT_CB_KEY_ALG, RT_CB_KEY, RT_CB_ALG, RT_SETKEY_NOOPCB, RT_SETKEY_TWICE, NRT };
+static const char *rt_name[NRT] = { "setkey", "cb-sets-key+alg", "cb-sets-key-only", "setkey(none,K)+cb-sets-alg", "setkey+noop-cb", "setkey(none,first HS256 key)-then-setkey" };
 
 struct cbctx {
 	int route;
@@ -269,7 +297,21 @@ static int table_admits(jwt_alg_t A, int have_key, jwt_alg_t keyalg)
 	return A == JWT_ALG_NONE || A == keyalg;
 }
 
+/* the key installed first on the "two setkey calls" route: a refused second call must leave it in force */
+static pk_t FIRSTPK;
+static jwk_set_t *first_set;
+static void init_first(void)
+{
+	FIRSTPK.name = "first-oct32";
+	FIRSTPK.octlen = 32;
+	vk_oct_bytes(977, FIRSTPK.oct, 32);
+	char *j = vk_oct_jwk(FIRSTPK.oct, 32, "HS256", "first");
+	first_set = jwks_create(j);
+	free(j);
+}
+
 typedef struct {
+	int use_first;       /* the first key (oct, alg HS256 from its attribute) is the one in force */
 	int have_key;        /* effective key present */
 	jwt_alg_t A;         /* effective configured alg */
 	int admitted;        /* by the table (for callback routes: post-callback check) */
@@ -294,6 +336,17 @@ static eff_t effective(int route, jwt_alg_t A, int have_item, jwt_alg_t keyalg, 
 			e.have_key = 0; /* refused: configuration unchanged */
 			e.A = JWT_ALG_NONE;
 			e.admitted = 1; /* the empty configuration is what is in force */
+		}
+		break;
+	case RT_SETKEY_TWICE:
+		e.admitted = 1;
+		if (table_admits(A, have_item, keyalg) && priv_ok) {
+			e.have_key = have_item;
+			e.A = A;
+		} else {
+			e.use_first = 1;   /* refused: the earlier configuration stays */
+			e.have_key = 1;
+			e.A = JWT_ALG_NONE;
 		}
 		break;
 	case RT_CB_KEY_ALG:
@@ -367,13 +420,19 @@ static void checker_cell(const pk_t *p, const jwk_item_t *item, jwt_alg_t A, int
 	struct cbctx ctx = { route, item, A };
 	jwt_alg_t keyalg = item ? jwks_item_alg(item) : JWT_ALG_NONE;
 	int setrc = 0;
-	if (route == RT_SETKEY || route == RT_SETKEY_NOOPCB)
+	if (route == RT_SETKEY_TWICE && jwt_checker_setkey(c, JWT_ALG_NONE, jwks_item_get(first_set, 0)))
+		vf_violation("harness|first-setkey-refused", "setkey(none, oct key with alg HS256) was refused");
+	if (route == RT_SETKEY || route == RT_SETKEY_NOOPCB || route == RT_SETKEY_TWICE)
 		setrc = jwt_checker_setkey(c, A, item);
 	else if (route == RT_CB_ALG)
 		setrc = jwt_checker_setkey(c, JWT_ALG_NONE, item);
-	if (route != RT_SETKEY)
+	if (route != RT_SETKEY && route != RT_SETKEY_TWICE)
 		jwt_checker_setcb(c, route_cb, &ctx);
 	eff_t e = effective(route, A, item != NULL, keyalg, 1, 0);
+	if (e.use_first) {
+		p = &FIRSTPK;
+		keyalg = JWT_ALG_HS256;
+	}
 	/* the documented table, both directions, for the rows it defines */
 	if ((route == RT_SETKEY || route == RT_SETKEY_NOOPCB) && A != JWT_ALG_INVAL && keyalg != JWT_ALG_INVAL) {
 		int want = table_admits(A, item != NULL, keyalg);
@@ -441,13 +500,19 @@ static void builder_cell(const pk_t *p, const jwk_item_t *item, jwt_alg_t A, int
 	struct cbctx ctx = { route, item, A };
 	jwt_alg_t keyalg = item ? jwks_item_alg(item) : JWT_ALG_NONE;
 	int priv = item ? jwks_item_is_private(item) : 0;
-	if (route == RT_SETKEY || route == RT_SETKEY_NOOPCB)
+	if (route == RT_SETKEY_TWICE)
+		jwt_builder_setkey(b, JWT_ALG_NONE, jwks_item_get(first_set, 0));
+	if (route == RT_SETKEY || route == RT_SETKEY_NOOPCB || route == RT_SETKEY_TWICE)
 		jwt_builder_setkey(b, A, item);
 	else if (route == RT_CB_ALG)
 		jwt_builder_setkey(b, JWT_ALG_NONE, item);
-	if (route != RT_SETKEY)
+	if (route != RT_SETKEY && route != RT_SETKEY_TWICE)
 		jwt_builder_setcb(b, route_cb, &ctx);
 	eff_t e = effective(route, A, item != NULL, keyalg, priv, 1);
+	if (e.use_first) {
+		p = &FIRSTPK;
+		keyalg = JWT_ALG_HS256;
+	}
 	char *out = jwt_builder_generate(b);
 	vf_obs(out != NULL);
 	if (out && !strcmp(vf_prop, "C03")) {
@@ -579,6 +644,8 @@ static void enumerate_c02(void)
 							if (sk == SK_HMAC_EMPTYKEY && hf != RC_FAM_HS)
 								continue;
 							if (sk == SK_HMAC_PUBPEM && (hf != RC_FAM_HS || !p || !p->vk))
+								continue;
+							if (sk == SK_NATURAL && (!p || ha >= JWT_ALG_INVAL || ha == JWT_ALG_NONE))
 								continue;
 							if (!vf_case("checker alg=%s key=%s key.alg=%s route=%s header=%s sig=%s",
 								     A < 15 ? tok_alg_names[A] : "INVAL", p ? p->name : "absent",
@@ -809,6 +876,18 @@ static void floor_cell(const pk_t *p, jwt_alg_t alg, int expect_usable, int comp
 	}
 	if (r != 0)
 		n_floor_refused++;
+	if (!expect_usable) {
+		/* a signature that is valid for the key's own family, presented under this algorithm's header */
+		char *nt = make_token(p, &h, SK_NATURAL);
+		if (nt) {
+			int r3 = jwt_checker_verify(c, nt);
+			vf_obs(r3 == 0);
+			if (r3 == 0)
+				vf_violation(p->vk ? (!strcmp(p->vk->kty, "RSA") ? "verify-below-floor|RSA" : !strcmp(p->vk->kty, "EC") ? "verify-below-floor|EC" : "verify-below-floor|OKP") : "verify-below-floor|oct",
+					     "verify succeeded with %s for %s on a token signed with the key's own algorithm", p->name, tok_alg_names[alg]);
+			free(nt);
+		}
+	}
 	if (out) {
 		/* the library must also accept its own token */
 		int r2 = jwt_checker_verify(c, out);
@@ -901,6 +980,7 @@ static void enumerate(void)
 	rc_rng_install();
 	lj_select_provider(vf_param);
 	init_headers();
+	init_first();
 	if (!strcmp(vf_prop, "C02"))
 		enumerate_c02();
 	else if (!strcmp(vf_prop, "C03"))
